@@ -25,15 +25,15 @@ type faultRun struct {
 	res *core.Result
 	c   *core.Case
 
-	mu           sync.Mutex
-	points       map[string]int // commit points reached in the running commit
-	attempt      *State         // would-be state of the last failed commit whose header write went out
+	mu      sync.Mutex
+	points  map[string]int // commit points reached in the running commit
+	attempt *State         // would-be state of the last failed commit whose header write went out
 	// attemptTainted: after the attempt, another transaction flushed pages or
 	// tried to commit, so pages of the attempt may have been recycled.
 	attemptTainted bool
 	attemptFrom    int // op log window of the attempt
 	attemptTo      int
-	sawIOFailure bool
+	sawIOFailure   bool
 }
 
 func (fr *faultRun) hook(name string, arg int) {
